@@ -1,11 +1,25 @@
 (* C20 — Multitask runs every algorithm on every task with the designated mode. *)
 From Coq Require Import String List Arith Bool.
-From PV Require Import Multi.
-From PVGen Require Import GenHyper.
+From PV Require Import PyLib Multi.
+From PVGen Require Import GenHyper GenMulti.
+From PVBridge Require Import MultiBridge.
 
 (* the methods of Multitask that the model describes still have exactly the modelled shape (branch order included) *)
 Theorem C20_regenerated : gen_multitask_shape = true.
 Proof. reflexivity. Qed.
+
+(* __check_input__, __check_modes__ and __get_mode__ as REGENERATED from multitask.py (T-core) are the model's functions; a constructed
+   Multitask designates for every pair in range exactly the model's table entry, without raising *)
+Theorem C20_check_input_regenerated : forall V serial values is_tuple n m,
+  gen_multi_check_input V serial values is_tuple n m = check_input V serial n m (arg_of V values is_tuple).
+Proof. exact check_input_bridge. Qed.
+Theorem C20_check_modes_regenerated : forall V valid t, gen_multi_check_modes V valid t = if check_modes V valid t then Some tt else None.
+Proof. exact check_modes_bridge. Qed.
+Theorem C20_designated_mode_regenerated : forall V valid serial values is_tuple n m t i j, valid serial = true -> i < n -> j < m ->
+  gen_multi_check_input V serial values is_tuple n m = Some t -> gen_multi_check_modes V valid t = Some tt ->
+  check_input V serial n m (arg_of V values is_tuple) = Some t /\
+  gen_multi_get_mode V valid serial t i j = Some (get_mode V serial t i j).
+Proof. exact regenerated_get_mode. Qed.
 
 (* the four documented shapes of `modes`, and None, for all n and m *)
 Theorem C20_one_value : forall V serial n m (v : V) i j, i < n -> j < m ->
@@ -37,6 +51,8 @@ Theorem C20_plan_length : forall V serial t n m k, length (plan V serial t n m k
 Proof. exact plan_length. Qed.
 
 Print Assumptions C20_regenerated.
+Print Assumptions C20_check_input_regenerated.
+Print Assumptions C20_designated_mode_regenerated.
 Print Assumptions C20_per_algorithm.
 Print Assumptions C20_per_task.
 Print Assumptions C20_per_pair.
